@@ -2274,6 +2274,22 @@ fn generate_constraints_stmt(
                                     .to_string(),
                             node: lhs.node(),
                         })
+                    } else if let Some(Prov::FuncOut(AstNode::Expr(enclosing))) =
+                        ctx.func_ret_stack.last()
+                        && let ExprKind::AnonymousFunction(..) | ExprKind::TaskBlock(..) =
+                            &*enclosing.kind
+                        && let (outer, inner) = (&enclosing.loc, node.location())
+                        && !(inner.file_id == outer.file_id
+                            && outer.lo <= inner.lo
+                            && inner.hi <= outer.hi)
+                    {
+                        // a lambda or task copies the variables it uses when it is created,
+                        // so it cannot change a variable that is bound outside of it
+                        ctx.errors.push(Error::GenericWithNode {
+                            msg: "Can't modify captured variable. A lambda or task gets a copy of the variables it uses"
+                                .to_string(),
+                            node: lhs.node(),
+                        })
                     }
                 } else {
                     ctx.errors.push(Error::GenericWithNode {
